@@ -111,7 +111,10 @@ func genPlan(t *rapid.T, tier string) any {
 	}
 	for i := 0; i < nf; i++ {
 		f := simos.Fault{Proc: -1, Nth: rapid.IntRange(0, 8).Draw(t, "nth"), Action: "error"}
-		switch rapid.IntRange(0, 4).Draw(t, "fkind") {
+		switch rapid.IntRange(0, 5).Draw(t, "fkind") {
+		case 5:
+			// one flock call is refused as unsupported (as some network and FUSE mounts do, sometimes intermittently)
+			f.Op, f.Errno = "flock", rapid.SampledFrom([]string{"ENOSYS", "ENOTSUP"}).Draw(t, "unsup")
 		case 0, 1:
 			f.Op, f.Errno, f.Repeat = "flock", "EINTR", rapid.IntRange(0, 2).Draw(t, "repeat")
 		case 2:
@@ -442,7 +445,7 @@ var harness = &simcheck.Harness{
 	Level:    "exploration",
 	Rule: "rapid draws 1-3 simulated processes x 1-3 goroutines (at most 6 tasks) x 1-4 operations on 1-2 lock files: OpenFile with every access mode +-O_CREATE/O_TRUNC/O_APPEND, Open, Create, Edit " +
 		"(held over 0-3 yields with reads/writes/truncates through the handle, sometimes closed twice); a fifth of the lock files are FIFOs (non-regular files, opened O_RDWR only), Mutex.Lock/unlock, Read, Write, Transform; a third of the plans inject 1-2 faults " +
-		"(EINTR storms or ENOLCK on flock, failing truncate after the lock, failing close); schedule policies random/sticky/pct/preempt; " +
+		"(EINTR storms, ENOLCK or ENOSYS/ENOTSUP on flock, failing truncate after the lock, failing close); schedule policies random/sticky/pct/preempt; " +
 		"non-trivial = some lock request had to wait or readers shared a lock; distinct by decision-trace hash",
 	Gen:     genPlan,
 	NewPlan: func() any { return &Plan{} },
